@@ -18,9 +18,9 @@ Local Open Scope Z_scope.
    another peer.  (Suspected defect S12 made this false; it is proved for the code after the fix
    "region scatter must not pick a store that holds another peer of the region".) *)
 Theorem C11_scatter_preserves_roles :
-  forall stores st grp guard r o,
+  forall stores st grp guard rule_ok r o,
     NoDup (stores_of (peers r)) ->
-    In o (scatter_outcomes stores st grp guard r) ->
+    In o (scatter_outcomes stores st grp guard rule_ok r) ->
     o_clash o = false
     /\ Permutation (map snd (o_targets o)) (map p_role (peers r))
     /\ NoDup (map fst (o_targets o))
@@ -114,20 +114,24 @@ Theorem C11_one_peer_per_store :
   forall xs s tr, run_steps s xs = Some tr -> NoDup (stores_of (rs_peers s)) -> Forall (fun s' => NoDup (stores_of (rs_peers s'))) tr.
 Proof. exact run_steps_nodup. Qed.
 
-(* the scatter leader: whenever some target store without an engine label accepts leaders (no reject-leader label property),
-   the store chosen for the leader is such a store (code after the fix "region scatter must not move the leader to a store
-   that rejects leaders"; before it the choice ignored the property while the operator is built with a forced leader).
-   If EVERY ordinary target store rejects leaders (e.g. a one-replica region scattered into such a zone) there is no choice. *)
+(* the scatter leader: whenever some target qualifies (store without engine label, target peer not a learner, the store passes the
+   leaderTarget row of the regenerated StoreStateFilter table, a leader / voter rule selects it), the store chosen for the leader
+   is such a target - up, not down, connected, not busy, leader transfer not paused (evict-leader), no reject-leader label.
+   (Code after the fixes f715d6e and 940882c; the operator is built with a forced leader, which skips the builder's own checks.)
+   If NO target qualifies the leader stays where it is when its peer stays. *)
 Theorem C11_scatter_leader_accepts_leaders :
-  forall stores grp ldr targets l,
-    In l (leader_choices stores grp ldr targets) ->
-    accepting stores (ordinary_targets stores targets) <> [] ->
-    In l (map fst targets) /\ exists s, find_store stores l = Some s /\ s_reject s = false /\ lv_empty (engine_of s) = true.
+  forall stores grp ldr cur rule_ok targets l,
+    In l (leader_choices stores grp ldr cur rule_ok targets) ->
+    leader_candidates stores rule_ok targets <> [] ->
+    exists ro s, In (l, ro) targets /\ ro <> Learner /\ find_store stores l = Some s /\ lv_empty (engine_of s) = true
+                 /\ up_store s /\ s_pause s = false /\ s_reject s = false /\ rule_ok l = true.
 Proof. exact scatter_leader_accepts_leaders. Qed.
 
 Example C11_leader_reject_regression :
   leader_choices [Store 1 SUp false false false false false false false false false true [];
-                  Store 2 SUp false false false false false false false false false false []] 1 [] [(1, Voter); (2, Voter)] = [2].
+                  Store 2 SUp false false false false false false false false false false [];
+                  Store 3 SUp false false false false false false false false true false []] 1 [] 1 (fun _ => true)
+                 [(1, Voter); (2, Voter); (3, Voter)] = [2].
 Proof. exact leader_reject_regression. Qed.
 
 (* regression / non-vacuity: the S12 history (counters {1:1, 3:1}, region on 1,2,3) now keeps all three peers *)
